@@ -231,6 +231,29 @@ def worker(sh):
         for _ in range(3):
             c1 = rng.randrange(Q)
             h2.append((c1, Q - 1))
+    # abscissas whose x^3 + b lies in a proper subfield-like slice of Fq2 - the square root then takes its special branches: right-hand
+    # side in Fq (a residue there: real root; a non-residue: purely imaginary root) or purely imaginary.  2^-381 for a random hash.
+    for _ in range(sh.pick(4, 24)):
+        want_real = rng.random() < 0.6
+        for _try in range(200):
+            if want_real:
+                x1 = rng.randrange(1, Q)
+                t = (x1 * x1 * x1 - 4) * pow(3 * x1, -1, Q) % Q          # Im(x^3) + 4 = 3 x0^2 x1 - x1^3 + 4 = 0
+                if O.fq_legendre(t) != 1:
+                    continue
+                x0 = O.fq_sqrt(t)
+                x0 = rng.choice([x0, Q - x0])
+            else:
+                x0 = rng.randrange(1, Q)
+                t = (x0 * x0 * x0 + 4) * pow(3 * x0, -1, Q) % Q          # Re(x^3) + 4 = x0^3 - 3 x0 x1^2 + 4 = 0
+                if O.fq_legendre(t) != 1:
+                    continue
+                x1 = O.fq_sqrt(t)
+                x1 = rng.choice([x1, Q - x1])
+            r2 = rhs2((x0, x1))
+            assert r2[1 if want_real else 0] == 0
+            h2.append((x1 | (rng.getrandbits(3) << 381), x0 | (rng.getrandbits(3) << 381)))
+            break
     for (f0, f1) in h2:      # f0 = first 48 bytes (c1), f1 = second (c0)
         add('c.g2affine_from_hash %s' % (f0.to_bytes(48, 'big') + f1.to_bytes(48, 'big')).hex(), 'h2', f0, f1)
     # ---- samplers
@@ -340,6 +363,9 @@ def worker(sh):
                 start = ((f1 & M381) % Q, (f0 & M381) % Q)
                 x, n = tai2(start)
                 cls = 'incr%d%s%s' % (min(n, 9), '/flagbits' if (f0 >> 381 or f1 >> 381) else '', '/c0-wraps' if start[0] + n >= Q else '')
+                rr = rhs2(x)
+                if rr[1] == 0 or rr[0] == 0:
+                    cls += '/rhs-in-Fq:%s' % ('residue' if O.fq_legendre(rr[0]) == 1 else 'non-residue') if rr[1] == 0 else '/rhs-imaginary'
                 if P is None or not O.E2.on_curve(P):
                     fail('from_hash result is not a curve point', 'hash:%s:off-curve' % op)
                 elif P[0] != x:
